@@ -111,6 +111,7 @@ type tStep struct {
 	Pre   bool   `json:"pre"`  // the context is already done when the call is made
 	Src   string `json:"src"`  // burst: the (fresh) source of the simultaneous first requests
 	Dial  bool   `json:"dial"` // burst: NewConnection(address of src) races the requests
+	Unsized bool `json:"unsized"` // hs: the request body has no announced length (chunked): ContentLength -1
 }
 
 type tScen struct {
@@ -631,7 +632,7 @@ func (r *tRun) classify(h *tInst, data []byte) (class, addr, dg string) {
 }
 
 // prepServe builds the request of an `hs` / `burst` step and its start line.
-func (r *tRun) prepServe(h *tInst, shape string, v *tVal, raw *tRaw, op *tOp) (*http.Request, Ev) {
+func (r *tRun) prepServe(h *tInst, shape string, v *tVal, raw *tRaw, op *tOp, unsized ...bool) (*http.Request, Ev) {
 	x := ev("HS")
 	x.C, x.K, x.X = op.id, "direct", h.name
 	var body io.ReadCloser
@@ -664,6 +665,11 @@ func (r *tRun) prepServe(h *tInst, shape string, v *tVal, raw *tRaw, op *tOp) (*
 		panic("verif-harness: " + err.Error())
 	}
 	q.Body = body
+	// what net/http's server reports: the announced length, or -1 for a body of unknown length (chunked)
+	q.ContentLength = int64(x.N)
+	if body != nil && (shape == "unreadable" || (len(unsized) > 0 && unsized[0])) {
+		q.ContentLength = -1
+	}
 	return q, x
 }
 
@@ -678,7 +684,7 @@ func (r *tRun) serve(h *tInst, q *http.Request, op *tOp) {
 }
 
 func (r *tRun) doServe(h *tInst, st tStep, op *tOp) {
-	q, x := r.prepServe(h, st.Shape, st.V, st.Raw, op)
+	q, x := r.prepServe(h, st.Shape, st.V, st.Raw, op, st.Unsized)
 	r.begin(op, x, st.Pre)
 	r.serve(h, q, op)
 }
